@@ -77,6 +77,9 @@ pub fn guarded<T, F: FnOnce() -> T + std::panic::UnwindSafe>(f: F) -> Result<T, 
 
 /// panics of the code under test are data; keep stderr quiet
 pub fn quiet_panics() {
+    if std::env::var_os("AVH_LOUD").is_some() {
+        return;
+    }
     std::panic::set_hook(Box::new(|_| {}));
 }
 
